@@ -663,6 +663,12 @@ def subscript(I, base, key):
             raise AnalysisError("array index form")
         if isinstance(key, slice):
             return Vec(base.items[key])
+        if isinstance(key, (Vec, list)) and len(key) and all(isinstance(k, (int, sp.Integer)) and not isinstance(k, bool) for k in key):
+            # integer-array ("fancy") indexing: x[order]
+            try:
+                return Vec(base.items[int(k)] for k in key)
+            except IndexError:
+                raise SymRaise("IndexError", "index out of bounds")
         if isinstance(key, Vec):
             if len(key) != len(base) or not all(isinstance(k, bool) for k in key.items):
                 # a mask whose entries cannot be decided: keep the undecided ones under their condition is not modelled
@@ -2265,6 +2271,24 @@ def _numpy_more(I, name):
         return lambda a, *r: sp.Integer(len(flat(a)))
     if name == "ndim":
         return lambda a: sp.Integer(len(_vshape(_tovec(a))) if isinstance(_tovec(a), Vec) else 0)
+    if name == "diff":
+        def diff(v, n=1, **k):
+            xs = flat(v)
+            for _ in range(concrete_int(n)):
+                xs = [binop(I, ast.Sub(), b_, a_) for a_, b_ in zip(xs, xs[1:])]
+            return Vec(xs)
+        return diff
+    if name in ("flatnonzero", "nonzero", "argwhere"):
+        def nz(v):
+            out = []
+            for i, x in enumerate(flat(v)):
+                t = truth(I, x)
+                if t is sp.true:
+                    out.append(sp.Integer(i))
+                elif t is not sp.false:
+                    raise AnalysisError(f"numpy.{name} over entries whose truth is not decided")
+            return Vec(out) if name == "flatnonzero" else (Vec(out),) if name == "nonzero" else Vec(Vec([i_]) for i_ in out)
+        return nz
     if name == "fromiter":
         def fromiter(it, dtype=None, count=-1, **k):
             xs = iterate(I, it)
